@@ -60,6 +60,29 @@ Theorem client_trace_ok : forall t0 evs,
 Proof. exact client_trace_ok_holds. Qed.
 Print Assumptions client_trace_ok.
 
+(* In every reachable state: if the scheduler cannot think the worker is
+   executing (until = nil), no action is executing — the slot is empty or its
+   Execute() has returned.  Terminating on until = nil abandons nothing. *)
+Theorem until_none_nothing_running : forall t0 evs,
+  let s := run (init t0) evs in
+  s_until s = None -> match s_slot s with Some x => x_finished x = true | None => True end.
+Proof. exact until_none_nothing_running_holds. Qed.
+Print Assumptions until_none_nothing_running.
+
+(* "On shutdown it keeps synchronizing until the scheduler cannot believe it
+   is still executing": while until has not passed, Run does not return
+   early, whatever its inputs; it performs a Synchronize. *)
+Theorem shutdown_keeps_synchronizing : forall s r u,
+  s_until s = Some u -> r_now r <= u -> has_sync (snd (run_step s r)) = true.
+Proof. exact shutdown_keeps_synchronizing_holds. Qed.
+Print Assumptions shutdown_keeps_synchronizing.
+
+(* The update channel never holds more than its capacity, and the executor
+   is parked in a send only when the buffer is full. *)
+Theorem channel_bounded : forall t0 evs, chan_ok_opt (s_slot (run (init t0) evs)).
+Proof. exact channel_bounded_holds. Qed.
+Print Assumptions channel_bounded.
+
 (* ---- non-vacuity ------------------------------------------------------------------ *)
 
 Definition rn (sd : bool) (now : Z) (rp : reply) : event := ERun (mkRin sd now true [] [] rp).
